@@ -11,6 +11,8 @@ CONSTANTS
   RedVars <- L_RedVars
   SubVals <- L_SubVals
   NewNames <- L_NewNames
+  APlus = "add"
+  ATimes = "mul"
   Tag = "core_index"
 INVARIANT Inv_TypeSound
 INVARIANT Inv_InputsDistinct
